@@ -304,6 +304,15 @@ def main():
         if m_l:
             ok = m_l.group(1) == "loop" and re.search(r"if\s+signal\s*==\s*libc::SIGSTOP\s*\{\s*break;\s*\}", body) is not None and len(re.findall(r"\bbreak\b", body.split("// We thus check")[0] if "// We thus check" in body else body)) >= 1 and not re.search(r"for\s+\w+\s+in\s+0\.\.", body)
             attach_loop = "some true" if ok else "some false"
+    # DirSection::write_to_file: the pending bytes go out before the directory entry
+    flush_first = "none"
+    mf = re.search(r"pub fn write_to_file\(.*?\n    \}\n", dsrc, re.S)
+    if mf:
+        body = re.sub(r"//[^\n]*", "", mf.group(0))
+        a = re.search(r"self\.destination\.write_all\(&buffer\[start_pos\.\.\]\)\?;", body)
+        b = re.search(r"self\.dump_dir_entry\(buffer,\s*dirent\)\?;", body)
+        if a and b:
+            flush_first = "some true" if a.start() < b.start() else "some false"
     out = []
     out.append("/- GENERATED by gen/extract.py from /repo's source — do not edit. -/")
     out.append("namespace Mdw.Src\n")
@@ -339,6 +348,7 @@ def main():
     out.append(f"\n/-- the fallback crash context (blamed thread not listed) is referred to by the location of its own allocation (none = not recognisable) -/\ndef exceptionContextLocOfAlloc : Option Bool := {exc_ctx_loc}")
     out.append(f"\n/-- a thread's name is the whole content of its comm file with trailing white space trimmed, nothing else (none = not recognisable) -/\ndef threadNameTrimEndOnly : Option Bool := {name_trim}")
     out.append(f"\n/-- the wait-and-reinject loop of `suspend_thread` is an unbounded `loop` left through SIGSTOP or an error only (none = not recognisable) -/\ndef attachLoopUnbounded : Option Bool := {attach_loop}")
+    out.append(f"\n/-- `write_to_file` writes the pending image bytes before it hands the entry to `dump_dir_entry` (none = not recognisable) -/\ndef flushBeforeEntry : Option Bool := {flush_first}")
     out.append("\nend Mdw.Src\n")
     text = "\n".join(out)
     os.makedirs(os.path.dirname(OUT), exist_ok=True)
